@@ -300,8 +300,12 @@ func (c connectUnaryServerProtocol) extractProtocolResponseHeaders(statusCode in
 		}
 		endUnmarshaller = func(_ Codec, buf *bytes.Buffer, end *responseEnd) {
 			var wireErr connectWireError
-			if err := json.Unmarshal(buf.Bytes(), &wireErr); err != nil {
-				end.err = connect.NewError(connect.CodeInternal, err)
+			if err := json.Unmarshal(buf.Bytes(), &wireErr); err != nil || wireErr.Code == 0 {
+				// Not a Connect error body: a bare HTTP failure (from a proxy, a
+				// middleware, etc). Infer the code from the HTTP status, as the
+				// Connect protocol specifies.
+				code := httpStatusCodeToRPC(statusCode)
+				end.err = connect.NewError(code, fmt.Errorf("unexpected HTTP error: %d %s", statusCode, http.StatusText(statusCode)))
 				return
 			}
 			end.err = wireErr.toConnectError()
